@@ -250,6 +250,10 @@ class Fn(object):
                 if s['to'] is None:
                     continue
                 lab = s['label']
+                # `do { } while (0)` and friends: an edge contradicting a constant condition does not exist
+                if lab in ('true', 'false') and isinstance(cond, dict) and cond.get('k') == 'int':
+                    if (lab == 'true') != (cond['v'] != 0):
+                        continue
                 e = Edge(b['id'], s['to'], lab, cond if lab != 'fall' else None,
                          vs=s.get('vs'), notin=sorted(set(case_vals)) if lab == 'default' else None)
                 self.out[b['id']].append(e)
@@ -358,6 +362,26 @@ class Fn(object):
 
     def dominates(self, a_bid, b_bid):
         return a_bid == b_bid or b_bid not in self.reach([self.entry], cut_blocks=[a_bid])
+
+    def path_from_block(self, bid, is_b, target=None):
+        """Like path_avoiding, starting at the first event of block bid."""
+        target = self.exit if target is None else target
+        seen, work = set(), [(bid, [bid])]
+        while work:
+            b, path = work.pop()
+            if b in seen:
+                continue
+            seen.add(b)
+            blocked = any(is_b(s) for s in self.block_sites(b))
+            if b == target and not blocked and len(path) > 1:
+                return path
+            if blocked:
+                continue
+            for e in self.out[b]:
+                if e.dst == target and len(path) >= 1 and not any(is_b(s) for s in self.block_sites(e.dst)):
+                    return path + [e.dst]
+                work.append((e.dst, path + [e.dst]))
+        return None
 
     def path_avoiding(self, start, is_b, target=None, from_entry=False):
         """A path (list of block ids) from just after site `start` (or from the entry)
